@@ -176,14 +176,16 @@ with NT():
     b = mkb()
 d1 = (x1, 0.25, "a", 1.0); d2 = (x2, 0.75, sel(c2, "a", "b"), 1.0)
 a.fill(d1); b.fill(d2)
+if ra: a = Factory.fromJson(J(a))   # immutable form (no value templates)
+if rb: b = Factory.fromJson(J(b))
 ja, jb = J(a), J(b)
 {do}
 {asserts}
 """
     return Harness(
-        f"C10/nested/{pname}/{op}/{what}", [("k1", "int"), ("k2", "int"), ("x1", "float"), ("x2", "float"), ("c2", "int")],
+        f"C10/nested/{pname}/{op}/{what}", [("k1", "int"), ("k2", "int"), ("x1", "float"), ("x2", "float"), ("c2", "int"), ("ra", "bool"), ("rb", "bool")],
         f"0 <= k1 < {len(CH)} and 0 <= k2 < {len(CH)} and -2.0 <= x1 < 2.0 and -2.0 <= x2 < 2.0 and 0 <= c2 <= 1", body,
-        timeout=timeout, setup=setup, tree=tmpl, bounds=f"child of both operands chosen by symbolic selectors over {CH}; one record each, x symbolic in [-2,2)",
+        timeout=timeout, setup=setup, tree=tmpl, bounds=f"child of both operands chosen by symbolic selectors over {CH}; one record each, x symbolic in [-2,2); each operand live or reloaded from JSON (symbolic flags)",
     )
 
 
